@@ -15,7 +15,7 @@ from .c11 import S
 META = {
     "title": "visibility = not hidden and not (prune and empty)",
     "bounds": {
-        "quick": {"pairs": "CAT(2) x CAT(2), CAT(2) x MR(2), MR(2) x CAT(2), MR(2) x MR(2), CAT(3)/MR(2) strands; one bottom subtotal on CAT dimensions",
+        "quick": {"pairs": "CAT(2) x CAT(2), CAT(2) x MR(2), MR(2) x CAT(2), MR(2) x MR(2), CAT(3)/MR(2) strands; one bottom subtotal on CAT dimensions; a two-cube multitable whose second cube is a re-inflated single-column filter cube (text rows, 4 values)",
                   "flags": "prune on/off per dimension x one hidden element per dimension x hidden insertion", "data": "unweighted AND weighted wire tensors free and INDEPENDENT (all values >= 0)"},
         "thorough": {"pairs": "as quick with CAT(3)", "flags": "all hide subsets of size <= 1 per dimension x prune flags", "data": "same"},
     },
@@ -156,6 +156,56 @@ def strand_vis(eng, rows, prune=True, hide=()):
             Obs("shape", tuple(part.shape), (len(vis),), kind="same")]
 
 
+def cubeset_filter_strand(eng, prune=True, hide=()):
+    """multitable: a text variable on the rows, the second cube a weighted single-column filter cube that reports only the values
+    somebody in the filter gave; the library re-inflates it to the summary cube's rows. Its rows are pruned iff their UNWEIGHTED
+    count is zero (absent from the filter cube or present with N = 0), whatever the weights"""
+    from cr.cube.cube import CubeSet
+    from symx.inject import SymList
+
+    def text_dim(values):
+        els = [{"id": i, "missing": False, "value": v} for i, v in enumerate(values)]
+        els.append({"id": -1, "missing": True, "value": {"?": -1}})
+        return {"derived": False, "references": {"alias": "brand", "name": "brand"},
+                "type": {"class": "enum", "elements": els, "subtype": {"class": "text", "missing_reasons": {"No Data": -1}, "missing_rules": {}}}}
+
+    def resp(values, u, wgt, single):
+        r = {"element": "crunch:cube", "dimensions": [text_dim(values)], "counts": SymList(list(u) + [0]),
+             "measures": {"count": {"data": SymList(list(wgt) + [0]), "n_missing": 0,
+                                    "metadata": {"derived": True, "references": {}, "type": {"class": "numeric", "integer": False}}}},
+             "missing": 0, "n": 12}
+        if single:
+            r["is_single_col_cube"] = True
+        return {"result": r}
+
+    summary_values = ["Acme", "Bolt", "Crux", "Dyna"]
+    filter_values = ["Bolt", "Crux", "Dyna"]
+    su = [eng.intcount("su%d" % i) for i in range(4)]
+    sw = [eng.real("sw%d" % i, lo=0) for i in range(4)]
+    fu = [eng.intcount("fu%d" % i) for i in range(3)]
+    fw = [eng.real("fw%d" % i, lo=0) for i in range(3)]
+    rows_t = {"prune": bool(prune)}
+    if hide:
+        rows_t["elements"] = {str(i): {"hide": True} for i in hide}
+    tr = [{"rows_dimension": dict(rows_t)}, {"rows_dimension": dict(rows_t)}]
+    cs = CubeSet([resp(summary_values, su, sw, False), resp(filter_values, fu, fw, True)], tr, population=None, min_base=0)
+    pset = cs.partition_sets[0]
+    obs = []
+    n_by_pos = {0: su, 1: dict((summary_values.index(v), fu[k]) for k, v in enumerate(filter_values))}
+    for c in (0, 1):
+        vis = []
+        for pos in range(4):
+            n = n_by_pos[c][pos] if c == 0 else n_by_pos[c].get(pos)
+            empty = True if n is None else bool(Q.lift(n) == 0) if eng.symbolic else (n == 0)
+            if pos in hide or (prune and empty):
+                continue
+            vis.append(pos)
+        part = pset[c]
+        obs.append(Obs("cube %d row_order" % c, [int(i) for i in part.row_order()], vis, kind="same"))
+        obs.append(Obs("cube %d row_labels" % c, [str(x) for x in part.row_labels], [summary_values[i] for i in vis], kind="same"))
+    return obs
+
+
 def specs(tier):
     out = []
     M = "props.c09"
@@ -180,6 +230,9 @@ def specs(tier):
     add("fixture cat x mr with derived item: explicit order, derived item hidden", "fixture_mr_derived", dict(order=[3, 1, 2], hide=[1], prune=False))
     add("fixture cat x mr with derived item: explicit order, prune", "fixture_mr_derived", dict(order=[2, 1], hide=[], prune=True), max_paths=100)
     add("mr strand prune", "strand_vis", dict(rows=("mr", "a", 2, {}), prune=True))
+    add("multitable: re-inflated single-column filter cube, prune", "cubeset_filter_strand", dict(prune=True))
+    add("multitable: re-inflated single-column filter cube, prune + hide", "cubeset_filter_strand", dict(prune=True, hide=[3]))
+    add("multitable: re-inflated single-column filter cube, no prune", "cubeset_filter_strand", dict(prune=False, hide=[1]))
     if tier == "thorough":
         cat3 = ("cat", "a", 3, {"missing_at": (1,), "insertions": [S("s", [1, 2])]})
         add("cat3 x cat prune both", "slice_vis", dict(rows=cat3, cols=cat_b, prune=[True, True]), max_paths=3000)
